@@ -17,7 +17,7 @@
 (* source tie by translation: the lemmas of these files are obligations of this property *)
 From Soy Require Import Proofs.SourceTieParser Proofs.SourceTieLexer.
 From Soy Require Import Model.Bytes Model.Outcome Model.Ast Model.Token Model.ExprParser Model.Parser Model.Lexer Model.ParseBytes Model.Chan.
-From Soy Require Import Generated.Tables Proofs.ParserMeasure Proofs.ParserProofs Proofs.LexerProofs Proofs.LexParseBridge Proofs.ChanProofs.
+From Soy Require Import Generated.Tables Proofs.ParserMeasure Proofs.ParserProofs Proofs.LexerProofs Proofs.LexParseBridge Proofs.ChanProofs Proofs.ChanParser.
 Open Scope N_scope.
 
 (* parse.SoyFile(name, s) for EVERY byte string s: the scanner model returns its items; the call
@@ -181,6 +181,18 @@ Theorem C18_chan_not_done_leaks :
   g_cons g = CRet r -> chan_scan_done (length (items p)) g = false -> forall more, ~ exited (run zero more g).
 Proof. exact chan_not_done_leaks. Qed.
 Print Assumptions C18_chan_not_done_leaks.
+
+(* the record of Model/Parser.v in the channel model: a parse that makes n receives on the channel of the
+   scanner of the items ts, then drains iff d, then returns -- under every schedule, once it has returned,
+   Parser.scan_done of (|ts|, n, d) says exactly whether the scanner goroutine exits *)
+Theorem C18_scan_done_reading :
+  forall (A : Type) (zero : A) (n : nat) (d : bool) (ts : list A) sched,
+  let g := run zero sched (cfg_init (prod_of A ts) (cons_of_record A n d)) in
+  g_cons g = CRet tt ->
+  (scan_done {| sc_sent := length ts; sc_recv := n; sc_drained := d |} = true -> exists k, exited (run zero (repeat MP k) g))
+  /\ (scan_done {| sc_sent := length ts; sc_recv := n; sc_drained := d |} = false -> forall more, ~ exited (run zero more g)).
+Proof. exact scan_done_reading. Qed.
+Print Assumptions C18_scan_done_reading.
 
 (* Non-vacuity of the channel model: the scanner of "1 2 3" (four items) against a consumer that
    receives two items and returns (the pinned parse.Expr) under the schedule sync, sync: not scan_done,
